@@ -4,7 +4,7 @@
 # quick check of the property it belongs to, expect a VIOLATION.
 # usage: selftest/revert-fixes.sh [commit ...]
 cd "$(dirname "$0")/.."
-declare -A PROP=( [26768e1]=C18 [2df5f9a]=C18 [0ea1f3b]=C18 [f054e0c]=C18 [5809fcf]=C18 [52d3481]=C18 [0538a39]=C18 [7e1be8b]=C18 [886e3b9]=C18 [a969596]=C18 [c5ace5b]=C18 [32a735b]=C18 [dfca8e6]=C11 [27242cc]=C03 [ea9f14e]=C03 [153a2c1]=C20 [cf0d7f6]=C20 [9288d04]=C19 [ed9b7d4]=C19 [39982ad]=C03 [3351948]=C04 [423f497]=C04 [426090a]=C04 [4c697be]=C10 [72e1037]=C10 [eccafbc]=C10 [067256a]=C04 [7b1de17]=C11 [c843097]=C11 [55ed310]=C11 [ef73bf7]=C09 [704859f]=C09 [e7c6a61]=C13 [90616b3]=C14 [786b971]=C14 )
+declare -A PROP=( [30e171d]=C10 [26768e1]=C18 [2df5f9a]=C18 [0ea1f3b]=C18 [f054e0c]=C18 [5809fcf]=C18 [52d3481]=C18 [0538a39]=C18 [7e1be8b]=C18 [886e3b9]=C18 [a969596]=C18 [c5ace5b]=C18 [32a735b]=C18 [dfca8e6]=C11 [27242cc]=C03 [ea9f14e]=C03 [153a2c1]=C20 [cf0d7f6]=C20 [9288d04]=C19 [ed9b7d4]=C19 [39982ad]=C03 [3351948]=C04 [423f497]=C04 [426090a]=C04 [4c697be]=C10 [72e1037]=C10 [eccafbc]=C10 [067256a]=C04 [7b1de17]=C11 [c843097]=C11 [55ed310]=C11 [ef73bf7]=C09 [704859f]=C09 [e7c6a61]=C13 [90616b3]=C14 [786b971]=C14 )
 rc=0
 list="$*"; [ -z "$list" ] && list="${!PROP[@]}"
 for c in $list; do
